@@ -20,8 +20,8 @@ MANIFEST = {
                  "generated/mutated/corpus packages, output judged by go/parser + go/types + gc",
 }
 
-RULE = ("packages = every sugar piece alone (29), generated combinations of 1-4 pieces, near-miss mutants (15 mutation kinds: identifier/type/"
-        "literal swaps, arity, dropped/duplicated lines, := vs =, assignment counts, unused vars/imports, duplicate decls), a rotating quarter "
+RULE = ("packages = every sugar piece alone (31), generated combinations of 1-4 pieces, near-miss mutants (16 mutation kinds: identifier/type/"
+        "literal swaps, arity, dropped/duplicated lines, := vs =, assignment counts, unused vars/imports, duplicate decls, duplicated case clauses), a rotating quarter "
         "(quick) or all (thorough) of /repo's XGo corpus incl. the cl test snippets, and mutated corpus; non-trivial = parsed and handed to "
         "cl.NewPackage (success or error); distinct = distinct file set")
 
